@@ -28,3 +28,5 @@ done
 cd /repo && git checkout -- . && git status --short | grep -v '^??'
 cd /verif && rm -rf evidence && mkdir evidence && cp -a "$ev"/. evidence/ && rm -rf "$ev"
 
+# regenerate the translated files from the restored tree (they are committed; a seeded run must not leave its own behind)
+/venv/bin/python tools/translate_py.py >/dev/null 2>&1; /venv/bin/python tools/translate_c.py >/dev/null 2>&1
